@@ -254,12 +254,22 @@ WHITELIST = {
 }
 
 
+# a wider set, explored with one preemption: state export used by copy() (Grammar.optimized copies the model while
+# another thread's first parse is still attaching cached attributes), and the check-then-create paths of model building
+WHITELIST_WIDE = WHITELIST | {
+    ('tatsu/util/asjson.py', 'is_public'), ('tatsu/util/asjson.py', '__pub__'), ('tatsu/objectmodel/basenode.py', '__getstate__'),
+    ('tatsu/objectmodel/basenode.py', '__pub__'), ('tatsu/objectmodel/builder.py', '_get_constructor'),
+    ('tatsu/objectmodel/builder.py', '_register_constructor'), ('tatsu/objectmodel/builder.py', '_instanceof'),
+}
+
+
 class Baton:
     """Cooperative scheduler: exactly one of the registered threads runs; at every traced line
     of a whitelisted function the running thread asks the chooser who goes on."""
 
-    def __init__(self, chooser, n):
+    def __init__(self, chooser, n, whitelist=None):
         self.ch = chooser
+        self.whitelist = whitelist if whitelist is not None else WHITELIST
         self.sems = [threading.Semaphore(0) for _ in range(n)]
         self.done = [False] * n
         self.current = 0
@@ -273,7 +283,7 @@ class Baton:
         i = fn.rfind('tatsu/')
         if i >= 0:
             key = (fn[i:], co.co_name)
-        if key in WHITELIST:
+        if key in self.whitelist:
             return self.line_tracer
         return None
 
@@ -327,16 +337,32 @@ class Baton:
         return tuple(results)
 
 
+_SERIAL = itertools.count(1)
+
+
 def fresh_model(kind):
     """A fresh, never parsed-with model built from the real classes (cheap)."""
     from tatsu import peg
-    if kind == 'plain':
+    if kind.startswith('plain'):
         word = peg.Rule(name='word', exp=peg.Choice(options=[peg.Option(exp=peg.Token(token='a')), peg.Option(exp=peg.Token(token='b'))]))
         start = peg.Rule(name='start', exp=peg.Sequence(sequence=[peg.Named(name='w', exp=peg.PositiveClosure(exp=peg.Call(name='word'))), peg.EOF()]))
         return peg.Grammar('T', [start, word])
-    word = peg.Rule(name='word', params=('Word',), exp=peg.Named(name='t', exp=peg.Pattern(pattern='[ab]')))
-    start = peg.Rule(name='start', params=('Doc',), exp=peg.Sequence(sequence=[peg.Named(name='w', exp=peg.PositiveClosure(exp=peg.Call(name='word'))), peg.EOF()]))
-    return peg.Grammar('T', [start, word])
+    # class names nobody has synthesized yet (the first use of a name is the racy one); observations drop the serial
+    k = next(_SERIAL) if kind.startswith('typed-shared') else ''
+    word = peg.Rule(name='word', params=(f'Word{k}',), exp=peg.Named(name='t', exp=peg.Pattern(pattern='[ab]')))
+    start = peg.Rule(name='start', params=(f'Doc{k}',), exp=peg.Sequence(sequence=[peg.Named(name='w', exp=peg.PositiveClosure(exp=peg.Call(name='word'))), peg.EOF()]))
+    model = peg.Grammar('T', [start, word])
+    if kind.startswith('typed-shared'):
+        # one model-building semantics object on the model, shared by every thread (tatsu.compile(g, asmodel=True))
+        from tatsu.semantics import ModelBuilderSemantics
+        model.semantics = ModelBuilderSemantics()
+    return model
+
+
+def _noserial(obs):
+    import re
+    return tuple(re.sub(r'(Word|Doc)\d+', r'\1', x) if isinstance(x, str) else
+                 ([re.sub(r'(Word|Doc)\d+', r'\1', y) if isinstance(y, str) else y for y in x] if isinstance(x, list) else x) for x in obs)
 
 
 def _thread_setup(kind, inputs):
@@ -344,13 +370,13 @@ def _thread_setup(kind, inputs):
         def body(text, asmodel):
             def f():
                 v = model.parse(text, asmodel=asmodel) if asmodel else model.parse(text)
-                return observe_value(v)
+                return _noserial(observe_value(v))
             return f
         return [body(t, kind == 'typed') for t in inputs]
 
     def run(ch, stats=None):
         model = fresh_model(kind)
-        bt = Baton(ch, len(inputs))
+        bt = Baton(ch, len(inputs), WHITELIST_WIDE if kind.endswith('-wide') else WHITELIST)
         r = bt.run(mkbodies(model))
         if stats is not None:
             stats['points'] = max(stats.get('points', 0), bt.points)
@@ -415,7 +441,14 @@ def thread_case(m, kind, inputs, bound, root=()):
             m.add('nontrivial')
         outcomes.add(str(obs))
         if obs != want:
-            m.violation(f'schedule/result-differs-from-sequential/{kind}', inputs=list(inputs), preemptions=[i for i, c in enumerate(choices) if c],
+            sig = f'schedule/result-differs-from-sequential/{kind}'
+            text = str(obs)
+            # recorded findings: races of the *first* parses on a shared model
+            if 'dictionary changed size during iteration' in text:
+                sig = 'schedule/concurrent-first-parses/model-copied-while-another-thread-attaches-cached-attributes'
+            elif 'Conflict for constructor name' in text:
+                sig = 'schedule/concurrent-first-parses/node-class-synthesized-twice'
+            m.violation(sig, kind=kind, inputs=list(inputs), preemptions=[i for i, c in enumerate(choices) if c],
                         got=str(obs)[:400], sequential=str(want)[:400])
     m.add('states', n)
     if root is None:
@@ -466,7 +499,8 @@ def run(rc):
         hists += list(itertools.product(range(n), repeat=3))
     rc.pmap(history_shard, hists)
     rc.coverage['histories'] = len(hists)
-    titems = [('plain', ('a b', 'b'), 2), ('typed', ('a b', 'b'), 1 if quick else 2), ('plain', ('a', 'x'), 1 if quick else 2), ('plain', ('a', 'b', 'a a'), 1)]
+    titems = [('plain', ('a b', 'b'), 2), ('typed', ('a b', 'b'), 1 if quick else 2), ('plain', ('a', 'x'), 1 if quick else 2), ('plain', ('a', 'b', 'a a'), 1),
+              ('plain-wide', ('a b', 'b'), 1), ('typed-shared-wide', ('a b', 'b'), 1)]
     work = []
     for kind, inputs, bound in titems:
         for root in thread_roots(kind, inputs, bound):
@@ -479,7 +513,7 @@ def run(rc):
                f'semantics, name, ignorecase, start, failing inputs, a second grammar reusing a class name) and every sequence of length 3 over '
                f'{"a reduced alphabet of " + str(len(REDUCED)) if quick else "all " + str(n)} calls, each in a pristine forked child, each call compared with '
                'the same call executed first; threads: 2-3 threads parsing on one shared never-optimised model, all interleavings at line granularity in '
-               f'{len(WHITELIST)} functions touching shared state up to a preemption bound; non-trivial = history of length > 1 / schedule with a preemption')
+               f'{len(WHITELIST)} functions touching shared state up to a preemption bound (and in {len(WHITELIST_WIDE)} functions, incl. state export and model building, with one preemption); non-trivial = history of length > 1 / schedule with a preemption')
     rc.coverage.update({'states': c.get('states', 0), 'transitions': c.get('transitions', 0),
                         'traces_validated_against_impl': c.get('evaluations', 0)})
     rc.cap('thread schedules are explored up to a preemption bound (2; 3 for one configuration in the thorough tier), at line events of whitelisted functions only')
